@@ -90,6 +90,8 @@ func c06(c *wk.Ctx) {
 	var rec *recordingAuth
 	var ps *probeService
 	users := map[string]string{}
+	worldSeq := 0
+	denyAll := false
 	mkWorld := func() error {
 		if w != nil {
 			w.close()
@@ -99,6 +101,13 @@ func c06(c *wk.Ctx) {
 			users[fmt.Sprintf("user%d", k)] = fmt.Sprintf("secret%d", k)
 		}
 		rec = &recordingAuth{inner: bus.Dictionary(users), acc: map[string]int{}}
+		worldSeq++
+		denyAll = worldSeq%3 == 0
+		if denyAll {
+			// an authenticator that accepts nobody: nothing may ever reach a service
+			// (the harness's own control connection included, so counters are read directly)
+			rec = &recordingAuth{inner: bus.No{}, acc: map[string]int{}}
+		}
 		var err error
 		w, err = newWorld("unix", rec)
 		if err != nil {
@@ -115,7 +124,7 @@ func c06(c *wk.Ctx) {
 	}()
 	connSeq := 0
 	n := 0
-	c.Cases("plan", c.Pick(700, 60000), func(i int, rng *rand.Rand) {
+	c.Cases("plan", c.Pick(2000, 60000), func(i int, rng *rand.Rand) {
 		if w == nil || n%40 == 0 {
 			if err := mkWorld(); err != nil {
 				c.Inconclusive("plan", i, "world: "+err.Error())
@@ -187,7 +196,7 @@ func c06(c *wk.Ctx) {
 							obj = uint32(r.Intn(3))
 						}
 						passes := st.typ == qnet.Call || st.typ == qnet.Post || st.typ == qnet.Capability || st.typ == qnet.Cancel
-						st.validAuth = valid && obj == 0 && action == 8 && passes
+						st.validAuth = valid && obj == 0 && action == 8 && passes && !denyAll
 					default:
 						st.objIdx = r.Intn(2)
 						if st.service == ps.id {
@@ -240,7 +249,11 @@ func c06(c *wk.Ctx) {
 								}
 							}
 						} else {
-							time.Sleep(3 * time.Millisecond)
+							// no reply comes for this type: a second, ordinary authenticate call goes through
+							// the same FIFOs, its reply proves that the first one has been processed
+							if ok, err := rcn.authenticate(user, pass); err != nil || !ok {
+								closedByServer = true
+							}
 						}
 					}
 					passes := st.typ == qnet.Call || st.typ == qnet.Post || st.typ == qnet.Capability || st.typ == qnet.Cancel
@@ -294,7 +307,7 @@ func c06(c *wk.Ctx) {
 				if closedByServer || (len(res.sent) > 0 && res.sent[len(res.sent)-1].garbage) {
 					return
 				}
-				if stayUnauth {
+				if stayUnauth || denyAll {
 					return
 				}
 				// barrier: authenticate properly (if needed) and call once; its reply orders after all earlier frames
@@ -320,7 +333,11 @@ func c06(c *wk.Ctx) {
 			}(k, cid)
 		}
 		wg.Wait()
-		// mailbox barrier from a control session, then read the counters
+		if denyAll {
+			c.Count("plans_with_deny_all_authenticator", 1)
+		}
+		// mailbox barrier from a control session, then read the counters (with the deny-all
+		// authenticator no connection can ever reach the mailboxes, so there is nothing to flush)
 		ctl, err := dialRaw(w.addr)
 		if err == nil {
 			if ok, _ := ctl.authenticate("control", "control-secret"); ok {
